@@ -15,7 +15,7 @@ func init() {
 	register(&Rule{ID: "R19.delta", Props: []string{"C19", "C14", "C02", "C01", "C12", "C13"}, Floor: 12,
 		Text: "effect tables of the bookkeeping in internal/collection: setFill(prev, obj) and Delete are evaluated abstractly in every situation of the two objects (every assignment of truth values to the conditions the code tests on them: nil, spatial, empty geometry, deadline), helpers inlined; per counter the effect is a linear form over symbolic measures (also when a net delta is accumulated in a local), per index the ordered operations. In every situation: what setFill does for the new object is independent of the previous one and vice versa; setFill's effect for the previous object equals Delete's; it is the exact inverse of the insertion of an object in the same situation; in an index the previous object is removed before the new one is entered; every secondary field of Collection is maintained",
 		Run:  ruleDelta})
-	register(&Rule{ID: "R19.who-writes", Props: []string{"C19"}, Floor: 8,
+	register(&Rule{ID: "R19.who-writes", Props: []string{"C19", "C14"}, Floor: 8,
 		Text: "the fields of Collection are written only by New, Set, setFill, Delete and the index helpers; the fields of object.Object (and its point/geo layouts) only by the constructors: indexed objects are immutable, so no index keyed by id, value, deadline or rectangle can go stale",
 		Run:  ruleWhoWrites})
 	register(&Rule{ID: "R19.accessors", Props: []string{"C19"}, Floor: 4,
